@@ -484,8 +484,27 @@ impl<'p> World<'p> {
             }
             Step::Wrap { blob, node, wk, key, with, params, rng } => self.wrap(*blob, *node, *wk, *key, with, params, rng),
             Step::Unwrap { blob, node, with, faults, as_kind } => self.unwrap(*blob, *node, with, faults, *as_kind),
-            Step::RefWrap { blob, family, wk, key, with, params, entropy } => {
-                self.ref_wrap(*blob, *family, *wk, *key, with, params, entropy)
+            Step::RefWrap { blob, family, wk, key, with, params, entropy, own_secret } => {
+                let mut e = entropy.clone();
+                if *own_secret && *wk == WrapKind::Pke {
+                    // the recipient's own secret scalar as the sender's ephemeral secret
+                    if let SecretRef::Key { slot } = with {
+                        if let Some(pub_raw) = self.keys.get(slot).and_then(|r| r.raw.clone()) {
+                            if let Some(sec) = self.pke_secret_for(family_backend(*family), &pub_raw) {
+                                let own = match *family {
+                                    2 | 4 => refimpl::x25519_secret_of_ed25519(&sec).map(|x| x.to_vec()),
+                                    3 => Some(sec.clone()),
+                                    _ => None,
+                                };
+                                if let Some(o) = own {
+                                    e = Bytes::hex(&o);
+                                    self.stats.bump("fault:pke-ephemeral-secret-equals-recipient-secret");
+                                }
+                            }
+                        }
+                    }
+                }
+                self.ref_wrap(*blob, *family, *wk, *key, with, params, &e)
             }
             Step::Id { node, slot } => self.id(*node, *slot),
             Step::IdRel { reader, a, b } => crate::textcheck::id_rel(self, *reader, a, b),
